@@ -10,10 +10,12 @@ package gitlab
 //@   props C16
 //@   nopanic
 //@   modifies nothing
+// what a user wrote is a comment, whatever it reads like: only system notes are matched against the event patterns
 //@ func NoteEvent.Kind
 //@   props C16
 //@   nopanic
 //@   modifies nothing
+//@   ensures [user-notes-are-comments] !n.System ==> result == EventComment
 // The title an imported note stands for is one clean line, whatever the tracker holds (C16: "whatever text the
 // tracker holds, the imported operations are valid" - SetTitleOperation.Validate refuses anything else, and a refused
 // operation makes every later import of that issue fail).
@@ -86,6 +88,9 @@ package gitlab
 // ... and an already imported comment appends an edit only if the tracker's text, once sanitized the way it
 // is stored, differs from the stored message.
 //@   check [unchanged-comment-appends-nothing] event.Kind() == EventComment && errResolve == nil && comment != nil && comment.Message == text.Cleanup(event.(NoteEvent).Body) ==> cache.bugOps == old(cache.bugOps)
+// ... and that edit operation does not take the note's gitlab id: the id stays with the one operation that stands for
+// the note (two operations with one id make every later import of the issue fail with a multiple-match error)
+//@   check [a-comment-edit-carries-no-id] event.Kind() == EventComment && errResolve == nil && comment != nil && comment.Message != text.Cleanup(event.(NoteEvent).Body) && result == nil ==> cache.lastEditMetadataLen == 0
 //@   check [edited-comment-is-updated] event.Kind() == EventComment && errResolve == nil && comment != nil && comment.Message != text.Cleanup(event.(NoteEvent).Body) && result == nil ==> cache.bugOps == old(cache.bugOps) + 1
 
 // Finding the bug of an issue (C16: an import creates no new bug for an issue that was imported already): the
